@@ -8,6 +8,7 @@ package dilithium
 
 import (
 	"fmt"
+	"sync/atomic"
 	"testing"
 
 	"github.com/cloudflare/circl/internal/verifmc"
@@ -34,7 +35,7 @@ func c04Chunks(n uint64, f func(lo uint64)) {
 func TestVerifC04_field(t *testing.T) {
 	r := verifmc.Start(t, "C04", "field")
 	defer r.Finish()
-	r.Rule("whole-domain sweeps: ReduceLe2Q and Normalize (modQ) on all 2^32 inputs, le2qModQ on [0,2q), power2round on [0,q), Exceeds on [0,q) x the 8 distinct bounds the six parameter sets use, " +
+	r.Rule("whole-domain sweeps: ReduceLe2Q and Normalize (modQ) on all 2^32 inputs (thorough; quick: [0,2^26) + bands at 2^31, 2^32), le2qModQ on [0,2q), power2round on [0,q), Exceeds on [0,q) x the 8 distinct bounds the six parameter sets use, " +
 		"scalar and Poly-level (AVX2 when enabled) entry points; oracle = integer arithmetic with %; distinct = (function, 2^16-aligned block of the domain), exact point counts in counters")
 	viol := func(fn, class string, x uint64, what string) {
 		r.Violation("C04|common."+fn+"|"+class, fmt.Sprintf("%s/%d", fn, x), what, map[string]interface{}{"fn": fn, "x": x})
@@ -49,11 +50,17 @@ func TestVerifC04_field(t *testing.T) {
 	}
 	want := func(lo uint64) bool { return replayX == 1<<63 || replayX == lo }
 
-	// ReduceLe2Q and Normalize over all 2^32 inputs.
+	// ReduceLe2Q and Normalize over all 2^32 inputs (quick tier: [0, 2^26) and +-2^20 around 2^31 and below 2^32).
+	full := r.Thorough()
+	inQuick := func(lo uint64) bool {
+		return lo < 1<<26 || (lo >= 1<<31-1<<20 && lo < 1<<31+1<<20) || lo >= 1<<32-1<<20
+	}
+	var reducePoints atomic.Int64
 	c04Chunks(1<<32, func(lo uint64) {
-		if !want(lo) {
+		if !want(lo) || (!full && !inQuick(lo)) {
 			return
 		}
+		reducePoints.Add(256)
 		var a, b Poly
 		for i := range a {
 			a[i] = uint32(lo) + uint32(i)
@@ -81,8 +88,11 @@ func TestVerifC04_field(t *testing.T) {
 			r.Distinct("reduce", lo>>16)
 		}
 	})
-	r.Count("points_ReduceLe2Q", 1<<32)
-	r.Count("points_Normalize", 1<<32)
+	r.Count("points_ReduceLe2Q", int(reducePoints.Load()))
+	r.Count("points_Normalize", int(reducePoints.Load()))
+	if !full {
+		r.NotExhaustive("quick tier: ReduceLe2Q / Normalize swept on [0,2^26) and bands around 2^31 and 2^32 (2^26+3*2^20 points); the thorough tier sweeps all 2^32 inputs")
+	}
 
 	// le2qModQ over its documented domain [0, 2q).
 	c04Chunks(2*Q, func(lo uint64) {
@@ -437,7 +447,7 @@ func TestVerifC04_commonpack(t *testing.T) {
 	r := verifmc.Start(t, "C04", "commonpack")
 	defer r.Finish()
 	r.Rule("PackT1/UnpackT1 (10 bit), PackT0/UnpackT0 (13 bit, 2^12 - x), PackLe16 (4 bit): every encodable value (pack) and every bit pattern (unpack) of one coefficient slot, " +
-		"at every position of the first and last packing period with two backgrounds, plus a boundary alphabet at all 256 positions; oracle = Algorithms 16-19; distinct = (field, direction, position, background, 1024-aligned value block)")
+		"at every position of the first packing period and at the last position with two backgrounds, plus a boundary alphabet at all 256 positions; oracle = Algorithms 16-19; distinct = (field, direction, position, background, 1024-aligned value block)")
 	id := func(v uint32) uint32 { return v }
 	verifc04.SweepFieldStd(r, "common", verifc04.Field{Name: "T1", C: 10, MaxEnc: 1023},
 		verifc04.PackFns{Pack: func(p *verifc04.P, b []byte) { (*Poly)(p).PackT1(b) }, Unpack: func(p *verifc04.P, b []byte) { (*Poly)(p).UnpackT1(b) }, ToImpl: id}, 4)
@@ -453,5 +463,5 @@ func TestVerifC04_commonpack(t *testing.T) {
 	verifc04.SweepFieldStd(r, "common", verifc04.Field{Name: "Le16", C: 4, MaxEnc: 15},
 		verifc04.PackFns{Pack: func(p *verifc04.P, b []byte) { (*Poly)(p).PackLe16(b) }, ToImpl: id}, 16)
 	r.RequireCounter("fields_swept", 6)
-	r.Sample(map[string]interface{}{"field": "T0", "slot_bits": 13, "positions_full_domain": 16, "positions_boundary_alphabet": 256})
+	r.Sample(map[string]interface{}{"field": "T0", "slot_bits": 13, "positions_full_domain": 9, "positions_boundary_alphabet": 256})
 }
